@@ -4,6 +4,7 @@
 -/
 import Snmp.Model.Walk
 import Snmp.Lemmas.WalkBound
+import Snmp.Lemmas.BulkBound
 namespace Snmp.Props.C03
 open Snmp Snmp.Walk
 
@@ -127,6 +128,43 @@ theorem C03_getnext_bound (x : Exchange) (roots : List Oid) (lenient : Bool) (fu
     obtain ⟨q', _, resp, hx, hcr⟩ := (h3 q hq).2 c hcq
     obtain ⟨vb, hvb, rfl⟩ := List.mem_map.mp hcr
     exact hU q' resp hx vb hvb
+  have hmore_nodup : more.flatten.Nodup := (List.nodup_append.mp h2).2.1
+  have hcount : more.length ≤ U.length :=
+    Nat.le_trans (length_le_flatten more (fun q hq => (h3 q hq).1))
+      (nodup_subset_length more.flatten U hmore_nodup hmoreU)
+  refine ⟨?_, ?_, ?_, ?_⟩
+  · rw [hreq]; simpa using h2
+  · rw [hreq]
+    intro q hq c hc
+    exact (h3 q hq).2 c hc
+  · rw [hreq]; simp only [List.length_cons]; omega
+  · intro hfuel ho
+    have := h5 ho
+    omega
+
+/-- **The same for the bulk walk — for ANY agent.**  `x` is an arbitrary exchange function, `U` any
+    list containing every OID it ever returns to a GETBULK; any repetition count, pairwise disjoint
+    roots in any order.  The per-column successor check of the bulk fetcher makes every accepted
+    response — any number of repetitions, a partial last one, whatever is in them — advance every
+    column (`cc_columns`), hence: no OID occurs twice among the OIDs the walk continues from; every
+    OID it continues from after the first request was returned by the agent; at most `|U| + 1`
+    fetch rounds; with a loop budget above `|U|` the walk ends by itself. -/
+theorem C03_bulk_bound (x : Exchange) (roots : List Oid) (size fuel : Nat) (U : List Oid)
+    (hpf : PrefixFree roots)
+    (hU : ∀ m q resp, x (.getbulk 0 m q) = .ok resp → ∀ vb ∈ resp, vb.1 ∈ U) :
+    let r := walkBulk x size roots fuel
+    r.requests.flatten.Nodup ∧
+    (∀ q ∈ r.requests.tail, ∀ c ∈ q, c ∈ U) ∧
+    r.requests.length ≤ U.length + 1 ∧
+    (U.length < fuel → r.outcome ≠ .outOfFuel) := by
+  intro r
+  obtain ⟨more, h1, h2, h3, h4, h5⟩ := multiwalk_bound_gen (bulkFetcher x size) U
+    (bulkFetcher_advancing x size U hU) roots false fuel (prefixFree_sorted roots hpf)
+  have hreq : r.requests = sortOids roots :: more := by rw [requests_eq]; exact h1
+  have hmoreU : ∀ c ∈ more.flatten, c ∈ U := by
+    intro c hc
+    obtain ⟨q, hq, hcq⟩ := List.mem_flatten.mp hc
+    exact (h3 q hq).2 c hcq
   have hmore_nodup : more.flatten.Nodup := (List.nodup_append.mp h2).2.1
   have hcount : more.length ≤ U.length :=
     Nat.le_trans (length_le_flatten more (fun q hq => (h3 q hq).1))
